@@ -241,7 +241,7 @@ func normalise(repo string, pkgs []*packages.Package) (*normResult, []*packages.
 	res := &normResult{Overlay: map[string][]byte{}, Dead: map[string]bool{}}
 	skip := map[string]bool{}
 	cbase := baselineClosures()
-	if len(newHelpers(pkgs, base, skip)) == 0 && len(newClosureVars(pkgs, cbase, skip)) == 0 {
+	if len(newHelpers(pkgs, base, skip)) == 0 && len(newClosureVars(pkgs, cbase, skip)) == 0 && len(newIIFEs(pkgs, cbase, skip)) == 0 {
 		return res, pkgs, nil
 	}
 	var roundKeys []string
@@ -295,6 +295,43 @@ func normalise(repo string, pkgs []*packages.Package) (*normResult, []*packages.
 				if err != nil {
 					if err2 := rollback(err); err2 != nil {
 						return nil, nil, fmt.Errorf("after closure normalisation: %v", err2)
+					}
+				}
+				continue
+			}
+		}
+		// immediately invoked literals left behind by inlining a helper that takes a function argument
+		if iifes := newIIFEs(pkgs, cbase, skip); len(iifes) > 0 {
+			stepped := false
+			doneFile := map[string]bool{}
+			sort.Slice(iifes, func(i, j int) bool { return iifes[i].call.Pos() > iifes[j].call.Pos() })
+			for _, ic := range iifes {
+				name := ic.pkg.Fset.Position(ic.file.Pos()).Filename
+				if doneFile[name] || skip["iife:"+ic.encl] {
+					continue
+				}
+				content, err := fileContent(res.Overlay, name)
+				if err != nil {
+					return nil, nil, err
+				}
+				out, what, err := iifeStep(ic, content)
+				if err != nil {
+					skip["iife:"+ic.encl] = true
+					res.Log = append(res.Log, fmt.Sprintf("immediately invoked literal in %s left alone: %v", ic.encl, err))
+					continue
+				}
+				res.Overlay[name] = out
+				res.Log = append(res.Log, what)
+				doneFile[name] = true
+				stepped = true
+				roundKeys = append(roundKeys, "iife:"+ic.encl)
+			}
+			if stepped {
+				var err error
+				pkgs, err = loadPkgs(repo, res.Overlay)
+				if err != nil {
+					if err2 := rollback(err); err2 != nil {
+						return nil, nil, fmt.Errorf("after literal normalisation: %v", err2)
 					}
 				}
 				continue
